@@ -156,9 +156,17 @@ int main(int argc, char** argv)
             continue;
         }
         if (!dict) { say("bad-op"); continue; }
-        if ((op == "add" || op == "adds") && t.size() == 2 && unhex(t[1], text)) {
+        if ((op == "add" || op == "adds" || op == "addp") && t.size() == 2 && unhex(t[1], text)) {
             unsigned id;
-            if (op == "add") {
+            if (op == "addp") {
+                // a (pointer, length) view into a longer buffer: the characters behind the view are
+                // not part of the text (a token inside a source line, the file half of "file::label")
+                static const char tail[] = "\x01tail-behind-the-view";
+                std::unique_ptr<char[]> buf(new char[text.size() + sizeof(tail)]);
+                std::memcpy(buf.get(), text.data(), text.size());
+                std::memcpy(buf.get() + text.size(), tail, sizeof(tail));
+                id = (unsigned)dict->Add(strview(buf.get(), text.size()));
+            } else if (op == "add") {
                 // the character-array path; the buffer is exactly `len` bytes + NUL on the heap so
                 // that any over-read is an ASan report
                 std::unique_ptr<char[]> buf(new char[text.size() + 1]);
